@@ -34,7 +34,8 @@ type Variant07 struct {
 	AddrShape string `json:"addrShape,omitempty"`
 	// Break: how BreakNext's broken exchange is realised. "" / "close": the server
 	// closes after the client's first message; "stall": the server reads it and never
-	// answers, the client's context deadline (80 ms) ends the exchange.
+	// answers; the client's context ends (cancelled the moment the request was read,
+	// with a deadline as backstop) while it waits for the reply.
 	Break string `json:"break,omitempty"`
 	// Origin of the cached sessions. "": negotiated, as stored by storeClientSession;
 	// "inherited": the same entry marked SetInherited(true) (what sessions imported
@@ -237,11 +238,20 @@ func (w *World07) handshake(api, tag, addr, cmd string) hsObs {
 		return o
 	}
 	var cr ClientResult
+	var ctx context.Context
 	deadline := time.Duration(0)
 	if w.brk && w.v.Break == "stall" {
-		deadline = 80 * time.Millisecond
+		// The stalled server cancels the client's context as soon as it has read the
+		// request (caller-side cancellation while the reply is awaited); a 3 s
+		// deadline on the same context is the backstop. Nothing depends on timing.
+		c2, cancel := context.WithCancel(context.Background())
+		defer cancel()
+		ctx, deadline = c2, 3*time.Second
+		s.mu.Lock()
+		s.OnStall = cancel
+		s.mu.Unlock()
 	}
-	log := Exchange(s, ClientAddrSame, nil, RealClientDeadline(cfg, s.Addr, false, deadline, &cr))
+	log := Exchange(s, ClientAddrSame, nil, RealClientCtx(ctx, cfg, s.Addr, false, deadline, &cr))
 	w.St.Connections++
 	return hsObs{logs: []*ConnLog{log}, err: cr.Err, neg: cr.Neg, wasResumed: cr.WasResumed}
 }
